@@ -824,6 +824,11 @@ class SecureHomeKitConnection(HomeKitConnection):
                     self._pair_verify_failed_hosts.add(_normalize_host(self.connected_host))
                 self._drop_transport()
                 raise
+            except Exception:
+                # The secure session could not be set up so the connection is of
+                # no use: close it rather than leaking it when we retry or give up.
+                self._drop_transport()
+                raise
 
         # Secure session has been negotiated - switch protocol so all future messages are encrypted
         self.protocol = SecureHomeKitProtocol(
